@@ -78,6 +78,8 @@ fn main() {
                 writeln!(out, "{}", r).unwrap();
             }
         }
+        // worker of the default-feature build, driven by the `kurbo` build of C20 over stdin/stdout
+        "c20w" => c20::plain_worker(),
         "replay" => {
             // re-run the implementation on the input part of every line of the file
             let text = std::fs::read_to_string(&args[2]).expect("replay file");
@@ -141,6 +143,8 @@ fn replay_one(toks: &[&str]) -> String {
             if toks[1] == "K" {
                 let types = if toks[2] == "-" { "" } else { toks[2] };
                 c20::observe_path(types, &c20::parse_coords(toks[3]))
+            } else if toks[1] == "C" {
+                c20::observe_closed(if toks[2] == "-" { "" } else { toks[2] })
             } else {
                 let v: Vec<f64> =
                     toks[2..10].iter().map(|t| f64::from_bits(u64::from_str_radix(t, 16).unwrap())).collect();
